@@ -509,3 +509,12 @@ func (rs Rows) Short() string {
 	}
 	return s
 }
+
+func removeAllImpl(d string) error { return os.RemoveAll(d) }
+
+func firstN(s string, n int) string {
+	if len(s) > n {
+		return s[:n] + "…"
+	}
+	return s
+}
